@@ -550,7 +550,22 @@ func c04Direct(c *Ctx) *RuleResult {
 	enq := p.LookupFunc(schedPkg, "operation.enqueue")
 	parent := p.LookupField(schedPkg, "invocation", "parent")
 	idle := p.LookupField(schedPkg, "invocation", "idleSynchronizingWorkers")
-	for _, cs := range CallsTo([]*FuncUnit{u}, enq) {
+	// enqueue sites of task.schedule: direct calls, or calls of helpers that enqueue the task's operations
+	enqueuers := mayDo(p.UnitsIn(schedPkg), func(x *FuncUnit, n ast.Node) bool {
+		call, ok := n.(*ast.CallExpr)
+		return ok && x.Fn != u.Fn && calleeOf(x.Info(), call) == enq
+	})
+	var sites []Site
+	sites = append(sites, CallsTo([]*FuncUnit{u}, enq)...)
+	ast.Inspect(u.Decl.Body, func(n ast.Node) bool {
+		if call, ok := n.(*ast.CallExpr); ok {
+			if fn := calleeOf(info, call); fn != nil && enqueuers[fn] {
+				sites = append(sites, Site{Unit: u, Node: call})
+			}
+		}
+		return true
+	})
+	for _, cs := range sites {
 		gs := flattenGuards(GuardsOf(info, u.Decl.Body, cs.Node))
 		rootOK, idleOK := false, false
 		for _, g := range gs {
